@@ -9,7 +9,7 @@ mod worlds;
 use crate::core::Tier;
 use crate::core::World;
 
-static WORLDS: &[&'static dyn World] = &[&worlds::c03::C03];
+static WORLDS: &[&'static dyn World] = &[&worlds::c03::C03, &worlds::c07::C07, &worlds::c12::C12];
 
 fn find(id: &str) -> &'static dyn World {
     match WORLDS.iter().find(|w| w.id() == id) {
